@@ -171,6 +171,11 @@ def fam_oshift():
     ints = [i for i in inputs if '.' not in i[0]]
     funcs = [('oshl', 'oshift/shl', inputs), ('oshr', 'oshift/shr', inputs), ('oshl_i', 'oshift/shl_int', ints),
              ('oshr_i', 'oshift/shr_int', ints), ('oshl_ip', 'oshift/shl_ip', inputs), ('oshr_ip', 'oshift/shr_ip', inputs)]
+    xs_c = [x for x in xs if x != '1.0'] + ['3', '-3', '2**31', '2**32-1']
+    for c in (30, 31, 32, 33, 61, 62, 63, 64, 65, 127, 128):
+        src += '\ndef xshl%d(x):\n    return x << %d\n\ndef xshr%d(x):\n    return x >> %d\n' % (c, c, c, c)
+        funcs.append(('xshl%d' % c, 'oshift/x<<c', [(x,) for x in xs_c]))
+        funcs.append(('xshr%d' % c, 'oshift/x>>c', [(x,) for x in xs_c]))
     for c in (1, 29, 30, 31, 32, 62, 63, 64, 65):
         src += '\ndef cshl%d(n):\n    return %d << n\n\ndef cshr%d(n):\n    return (2**%d) >> n\n' % (c, c, c, c)
         funcs.append(('cshl%d' % c, 'oshift/c<<n', [(n,) for n in ns]))
